@@ -191,7 +191,7 @@ pub fn check(s: &Scenario) -> CheckResult {
                 }
             }
             CEv::E(e) => {
-                ensure!(rets[i] == Some(Err(*e as i32)), "C11/error-return", "event {}: input Err({}) but update() returned {:?}", i, e, rets[i]);
+                ensure!(rets[i] == Some(Err(exp_code(*e))), "C11/error-return", "event {}: input Err({}) but update() returned {:?}", i, e, rets[i]);
                 seg = None;
                 err = ErrMode::Strict(*e);
             }
@@ -234,8 +234,8 @@ pub fn check(s: &Scenario) -> CheckResult {
             _ => if sg.n >= 3 { Some((sg.t, sg.u_int_int)) } else { None },
         });
         match err {
-            ErrMode::Strict(e) => ensure!(outs[i] == Obs::Err(e as i32), "C11/error-not-reported", "event {} ({:?}): the input error {} must be reported until the next present sample, get() = {:?}", i, ev, e, outs[i]),
-            ErrMode::Either(e) => ensure!(outs[i] == Obs::Err(e as i32) || outs[i] == Obs::None, "C11/after-error", "event {} ({:?}): expected Err({}) or absent, get() = {:?}", i, ev, e, outs[i]),
+            ErrMode::Strict(e) => ensure!(outs[i] == Obs::Err(exp_code(e)), "C11/error-not-reported", "event {} ({:?}): the input error {} must be reported until the next present sample, get() = {:?}", i, ev, e, outs[i]),
+            ErrMode::Either(e) => ensure!(outs[i] == Obs::Err(exp_code(e)) || outs[i] == Obs::None, "C11/after-error", "event {} ({:?}): expected Err({}) or absent, get() = {:?}", i, ev, e, outs[i]),
             ErrMode::No => match (&want, &outs[i]) {
                 (None, Obs::None) => {}
                 (None, o) => {
@@ -282,7 +282,7 @@ fn cev() -> BoxedStrategy<CEv> {
     prop_oneof![
         16 => (gen::moderate(), dt_pos()).prop_map(|(v, dt)| CEv::P(v, dt)),
         1 => Just(CEv::A),
-        1 => (1u8..=2).prop_map(CEv::E),
+        1 => (0u8..=2).prop_map(CEv::E),
         1 => Just(CEv::SetSame),
         1 => gen::moderate().prop_map(CEv::SetValue),
         1 => (0u8..3, gen::moderate()).prop_map(|(k, v)| CEv::SetKind(k, v)),
@@ -307,6 +307,14 @@ impl Property for C11 {
     }
     fn check(s: &Scenario) -> CheckResult {
         check(s)
+    }
+    fn valid(s: &Scenario) -> bool {
+        s.k.iter().all(|x| dom::wide(*x)) && s.cmd_kind < 3 && dom::moderate(s.cmd_value) && dom::t0_span(s.t0) && s.events.len() <= 48 && s.events.iter().all(|e| match e {
+            CEv::P(v, dt) => dom::moderate(*v) && dom::dt_pos(*dt),
+            CEv::E(c) => *c <= 2,
+            CEv::SetValue(v) | CEv::SetKind(_, v) | CEv::Follow(_, v) => dom::moderate(*v),
+            _ => true,
+        })
     }
     fn extra_coverage() -> std::collections::BTreeMap<String, serde_json::Value> {
         let mut m = std::collections::BTreeMap::new();
